@@ -43,7 +43,7 @@ def candidates(rng):
     return out
 
 
-def sweep(ctx, rng):
+def sweep(ctx, rng, stop_at_first=False):
     sets = [('struct', gen.grid_struct_lines()), ('enum', gen.grid_enum_lines(full=False)), ('vfield', gen.grid_variant_fields()), ('trait', gen.grid_trait_instrs()),
             ('comp', gen.composites(rng, 3000)), ('c01', gen.c01_cases(rng, 1500)), ('c02', gen.c02_cases(rng, 1500)), ('c03', gen.c03_cases(rng, 2000)),
             ('hinted', gen.c03_hinted_cases(rng, 800)), ('c06', gen.c06_cases(rng, 1200)), ('c07', gen.c07_cases(rng, 1200)), ('c07p', gen.c07_parent_cases(rng, 600)),
@@ -59,6 +59,8 @@ def sweep(ctx, rng):
         total += len(d)
         if d and first is None:
             first = (name, d[0]['text'].replace('\n', ' ')[:300])
+        if total and stop_at_first:
+            break
     return total, first
 
 
@@ -89,7 +91,7 @@ def main():
             done += 1
             ctx = props.Ctx('MUT', 'quick', seed)
             t = time.time()
-            nd, first = sweep(ctx, random.Random(seed))
+            nd, first = sweep(ctx, random.Random(seed), stop_at_first=True)
             rec = {'file': f, 'line': text.count('\n', 0, a) + 1, 'op': '%s -> %s' % (text[a:b], rep), 'src': line, 'disagreements': nd, 'first': first}
             res.append(rec)
             print(('SURVIVED ' if nd == 0 else 'noticed  ') + json.dumps(rec)[:420], '%.0fs' % (time.time() - t), flush=True)
